@@ -47,3 +47,28 @@ Example C18_contract_satisfiable :
   forall v : nat * nat, (fun j => Some j) ((fun x : nat * nat => x) v) = Some v.
 Proof. reflexivity. Qed.
 Print Assumptions C18_contract_satisfiable.
+
+(* ---- the serialisation code (phasegen/serialization.py, Coalescent.__getstate__ / __setstate__ / to_json, Inference.__getstate__ /
+   __setstate__), PINNED in gen/SerialGen.v and re-checked against the source on every run by translate/serial2coq.py; its reading is
+   model/Serial.v: everything but the rate-matrix caches, the two shared state spaces and the (dill-pickled) callables is part of the
+   serialised configuration ---- *)
+From PG Require Import gen.SerialGen proofs.GenSerialEquiv.
+Theorem C18_source_roundtrip_preserves_config :
+  forall (Config Caches Json : Type) (drop : Caches -> Caches) (enc : Config * Caches -> Json) (dec : Json -> option (Config * Caches)),
+    (forall v, dec (enc v) = Some v) ->
+  forall o : obj Config Caches,
+    exists o', Serializable_from_json Config Caches Json dec (snd (Coalescent_to_json Config Caches Json drop enc o)) = Some o'
+               /\ o_config Config Caches o' = o_config Config Caches o
+               /\ o_caches Config Caches o' = drop (o_caches Config Caches o).
+Proof. exact gen_roundtrip_preserves_config. Qed.
+Print Assumptions C18_source_roundtrip_preserves_config.
+
+Theorem C18_source_repeated_cycles :
+  forall (Config Caches Json : Type) (drop : Caches -> Caches) (enc : Config * Caches -> Json) (dec : Json -> option (Config * Caches)),
+    (forall v, dec (enc v) = Some v) ->
+  forall (Stat Value : Type) (stat : Config -> Stat -> Value) n (o : obj Config Caches),
+    exists o', save_load_cycles Config Caches Json drop enc dec n o = Some o'
+               /\ o_config Config Caches o' = o_config Config Caches o
+               /\ forall s, query Config Caches Stat Value stat o' s = query Config Caches Stat Value stat o s.
+Proof. exact gen_repeated_cycles. Qed.
+Print Assumptions C18_source_repeated_cycles.
